@@ -99,6 +99,8 @@ class TorchCalls(TorchOps):
             return self.to_set(args[0], node)
         if fn == "dict":
             return self.make_dict(args, kwargs, node, ordered=False)
+        if fn == "dict.fromkeys":
+            return self.dict_fromkeys(args, node)
         if fn == "zip":
             return self.zip(args, node)
         if fn == "enumerate":
@@ -126,6 +128,15 @@ class TorchCalls(TorchOps):
             return self.unk(fn, node)
         if fn == "sum":
             return self.py_sum(args, node)
+        if fn in ("max", "min") and len(args) == 2 and all(tv_of(a) is not None and tv_of(a).is_py and tv_of(a).poly is not None for a in args):
+            ta, tb = tv_of(args[0]), tv_of(args[1])
+            ca, cb = ta.poly.const_value(), tb.poly.const_value()
+            if ca is not None and cb is not None:
+                return Const(int(max(ca, cb) if fn == "max" else min(ca, cb)))
+            return TV(kind="pyint", poly=self.derived_sym(fn, ta.poly, tb.poly), origin=ta.origin | tb.origin, size_of=None, z=ta.z and tb.z)
+        if fn == "round" and len(args) == 1 and tv_of(args[0]) is not None and tv_of(args[0]).poly is not None and tv_of(args[0]).poly.const_value() is None:
+            t = tv_of(args[0])
+            return TV(kind="pyint", poly=self.derived_sym("round", t.poly), origin=t.origin)
         if fn in ("max", "min"):
             vals = args if len(args) > 1 else None
             if vals is None:
